@@ -26,14 +26,137 @@ type loopClass struct {
 	Why   string
 }
 
-func loopInvariant(l *loopInfo, v ssa.Value) bool {
+func loopInvariant(l *loopInfo, v ssa.Value) bool { return loopInvariantD(l, v, 0) }
+
+// loopInvariantD: the value is the same on every iteration: defined outside the loop, or a
+// pure expression (arithmetic, conversion, len/cap, field/element address) over invariant
+// operands, or a load from a field / local cell that nothing in the loop can store to.
+func loopInvariantD(l *loopInfo, v ssa.Value, depth int) bool {
+	if depth > 8 {
+		return false
+	}
 	switch x := v.(type) {
 	case *ssa.Const, *ssa.Parameter, *ssa.FreeVar, *ssa.Global, *ssa.Function:
 		return true
 	case ssa.Instruction:
-		return !l.Blocks[x.Block()]
+		if !l.Blocks[x.Block()] {
+			return true
+		}
+	}
+	switch x := v.(type) {
+	case *ssa.BinOp:
+		return loopInvariantD(l, x.X, depth+1) && loopInvariantD(l, x.Y, depth+1)
+	case *ssa.Convert:
+		return loopInvariantD(l, x.X, depth+1)
+	case *ssa.ChangeType:
+		return loopInvariantD(l, x.X, depth+1)
+	case *ssa.FieldAddr:
+		return loopInvariantD(l, x.X, depth+1)
+	case *ssa.Field:
+		return loopInvariantD(l, x.X, depth+1)
+	case *ssa.Call:
+		if b, ok := x.Call.Value.(*ssa.Builtin); ok && (b.Name() == "len" || b.Name() == "cap") {
+			return loopInvariantD(l, x.Call.Args[0], depth+1)
+		}
+	case *ssa.UnOp:
+		if x.Op != token.MUL {
+			return loopInvariantD(l, x.X, depth+1)
+		}
+		// load: the address is invariant and nothing in the loop stores to that location
+		if !loopInvariantD(l, x.X, depth+1) {
+			return false
+		}
+		return !loopMayStore(l, x.X)
 	}
 	return false
+}
+
+// loopMayStore: can any instruction of the loop (or a module function it calls) write the
+// location addr? Locations are compared by struct field (owner+name) or by local cell.
+func loopMayStore(l *loopInfo, addr ssa.Value) bool {
+	same := func(a ssa.Value) bool {
+		if a == addr {
+			return true
+		}
+		fa, ok1 := fieldOf(a)
+		fb, ok2 := fieldOf(addr)
+		if ok1 && ok2 {
+			return fa.Owner == fb.Owner && fa.Name == fb.Name
+		}
+		return false
+	}
+	_, isCell := addr.(*ssa.Alloc)
+	_, isFV := addr.(*ssa.FreeVar)
+	for b := range l.Blocks {
+		for _, in := range b.Instrs {
+			switch x := in.(type) {
+			case *ssa.Store:
+				if same(x.Addr) {
+					return true
+				}
+			case *ssa.MapUpdate:
+			case ssa.CallInstruction:
+				// a call may write a struct field it can reach; local cells are only reachable by closures
+				c := x.Common()
+				if _, isB := c.Value.(*ssa.Builtin); isB {
+					continue
+				}
+				if isCell || isFV {
+					// a closure capturing the cell, called or spawned here
+					if mc, ok := c.Value.(*ssa.MakeClosure); ok {
+						for _, bnd := range mc.Bindings {
+							if bnd == addr {
+								return true
+							}
+						}
+					}
+					continue
+				}
+				if f, ok := fieldOf(addr); ok {
+					if callMayStoreField(c, f) {
+						return true
+					}
+				}
+			}
+		}
+	}
+	return false
+}
+
+var fieldWriters = map[string]map[*ssa.Function]bool{}
+
+// callMayStoreField: the static callee (transitively through static calls) contains a store to
+// the field; dynamic calls are assumed not to write library-private fields of another object
+// (user callbacks cannot name unexported fields).
+func callMayStoreField(c *ssa.CallCommon, f fieldRef) bool {
+	callee := c.StaticCallee()
+	if callee == nil || callee.Blocks == nil {
+		return false
+	}
+	seen := map[*ssa.Function]bool{}
+	var rec func(fn *ssa.Function, d int) bool
+	rec = func(fn *ssa.Function, d int) bool {
+		if seen[fn] || fn.Blocks == nil || d > 6 {
+			return false
+		}
+		seen[fn] = true
+		for _, b := range fn.Blocks {
+			for _, in := range b.Instrs {
+				if st, ok := in.(*ssa.Store); ok {
+					if g, ok := fieldOf(st.Addr); ok && g.Owner == f.Owner && g.Name == f.Name {
+						return true
+					}
+				}
+				if ci, ok := in.(ssa.CallInstruction); ok {
+					if sc := ci.Common().StaticCallee(); sc != nil && rec(sc, d+1) {
+						return true
+					}
+				}
+			}
+		}
+		return false
+	}
+	return rec(callee, 0)
 }
 
 // dominatesAllLatches: block c (in the loop) is executed on every iteration.
@@ -510,3 +633,165 @@ func ruleTermination(w *World, r *Report, pfx string) {
 	}
 }
 
+
+// ---------------------------------------------------------------------------------------------
+// index coverage: does a loop visit every index of a slice exactly once, and in which direction?
+
+// lin is a*LEN + b*P + c where LEN = len(the slice) and P = the loop's header phi.
+type lin struct {
+	a, b, c int64
+	ok      bool
+}
+
+func (w *World) linOf(v ssa.Value, phi *ssa.Phi, slice ssa.Value, depth int) lin {
+	if depth > 8 {
+		return lin{}
+	}
+	v = stripConv(v)
+	if v == ssa.Value(phi) {
+		return lin{0, 1, 0, true}
+	}
+	if k, ok := constInt(v); ok {
+		return lin{0, 0, k, true}
+	}
+	if c, ok := v.(*ssa.Call); ok && isBuiltinCall(&c.Call, "len") && w.sameSource(c.Call.Args[0], slice) {
+		return lin{1, 0, 0, true}
+	}
+	if b, ok := v.(*ssa.BinOp); ok && (b.Op == token.ADD || b.Op == token.SUB) {
+		x, y := w.linOf(b.X, phi, slice, depth+1), w.linOf(b.Y, phi, slice, depth+1)
+		if !x.ok || !y.ok {
+			return lin{}
+		}
+		if b.Op == token.ADD {
+			return lin{x.a + y.a, x.b + y.b, x.c + y.c, true}
+		}
+		return lin{x.a - y.a, x.b - y.b, x.c - y.c, true}
+	}
+	return lin{}
+}
+
+type indexWalk struct {
+	OK        bool
+	Ascending bool // the index grows from iteration to iteration
+	CoversAll bool // every index 0..len-1 exactly once
+	Why       string
+}
+
+// loopIndexWalk analyses how loop l indexes `slice` (IndexAddr / Index on a value with the same source).
+func (w *World) loopIndexWalk(l *loopInfo, slice ssa.Value) indexWalk {
+	// the controlling test: executed every iteration, one successor outside
+	var phi *ssa.Phi
+	var condLin, boundLin lin
+	var op token.Token
+	found := false
+	for b := range l.Blocks {
+		ifi, ok := b.Instrs[len(b.Instrs)-1].(*ssa.If)
+		if !ok || !dominatesAllLatches(l, b) || l.Blocks[b.Succs[0]] == l.Blocks[b.Succs[1]] {
+			continue
+		}
+		bin, ok := ifi.Cond.(*ssa.BinOp)
+		if !ok {
+			continue
+		}
+		for _, in := range l.Header.Instrs {
+			p, ok := in.(*ssa.Phi)
+			if !ok {
+				continue
+			}
+			cx, cy := w.linOf(bin.X, p, slice, 0), w.linOf(bin.Y, p, slice, 0)
+			if cx.ok && cy.ok && (cx.b != 0) != (cy.b != 0) {
+				o := bin.Op
+				if !l.Blocks[b.Succs[0]] {
+					o = negOp(o)
+				}
+				if cx.b != 0 {
+					phi, condLin, boundLin, op = p, cx, cy, o
+				} else {
+					phi, condLin, boundLin, op = p, cy, cx, swapOp(o)
+				}
+				found = true
+			}
+		}
+	}
+	if !found {
+		return indexWalk{Why: "no counting test over the slice's length"}
+	}
+	st := stepOf(l, phi)
+	if !st.ok || !st.isK || (st.konst != 1 && st.konst != -1) || (condLin.b != 1 && condLin.b != -1) {
+		return indexWalk{Why: "the loop variable does not advance by one"}
+	}
+	step := st.konst
+	if st.neg {
+		step = -step
+	}
+	// start value of phi
+	var start lin
+	for i, e := range phi.Edges {
+		if !l.Blocks[l.Header.Preds[i]] {
+			start = w.linOf(e, phi, slice, 0)
+		}
+	}
+	if !start.ok || start.b != 0 {
+		return indexWalk{Why: "start value is not a function of the slice length"}
+	}
+	// last phi value for which the stay-condition condLin(phi) op boundLin holds
+	// condLin(phi) = a*LEN + b*phi + c ; solve for phi at the boundary
+	// target value T of condLin: LSS -> bound-1, LEQ -> bound, GTR -> bound+1, GEQ -> bound
+	T := boundLin
+	switch op {
+	case token.LSS:
+		T.c--
+	case token.GTR:
+		T.c++
+	case token.LEQ, token.GEQ:
+	default:
+		return indexWalk{Why: "unsupported loop test"}
+	}
+	// direction consistency: condLin moves by b*step per iteration; must move towards the bound
+	move := condLin.b * step
+	if ((op == token.LSS || op == token.LEQ) && move <= 0) || ((op == token.GTR || op == token.GEQ) && move >= 0) {
+		return indexWalk{Why: "loop variable moves away from its bound"}
+	}
+	// phi_last = (T - a*LEN - c) / b   (b = +-1)
+	last := lin{(T.a - condLin.a) * condLin.b, 0, (T.c - condLin.c) * condLin.b, true}
+	// the index expression
+	var idx lin
+	nIdx := 0
+	for b := range l.Blocks {
+		for _, in := range b.Instrs {
+			var x, index ssa.Value
+			switch ia := in.(type) {
+			case *ssa.IndexAddr:
+				x, index = ia.X, ia.Index
+			case *ssa.Index:
+				x, index = ia.X, ia.Index
+			default:
+				continue
+			}
+			if !w.sameSource(x, slice) {
+				continue
+			}
+			e := w.linOf(index, phi, slice, 0)
+			if !e.ok {
+				return indexWalk{Why: "index expression is not affine in the loop variable"}
+			}
+			if nIdx > 0 && e != idx {
+				return indexWalk{Why: "the slice is indexed by two different expressions"}
+			}
+			idx = e
+			nIdx++
+		}
+	}
+	if nIdx == 0 || (idx.b != 1 && idx.b != -1) {
+		return indexWalk{Why: "the loop does not index the slice with its loop variable"}
+	}
+	eval := func(p lin) lin { // idx at phi = p
+		return lin{idx.a + idx.b*p.a, 0, idx.c + idx.b*p.c, true}
+	}
+	first, lastI := eval(start), eval(last)
+	isZero := func(x lin) bool { return x.a == 0 && x.c == 0 }
+	isTop := func(x lin) bool { return x.a == 1 && x.c == -1 }
+	out := indexWalk{OK: true, Ascending: idx.b*step > 0}
+	out.CoversAll = (isZero(first) && isTop(lastI)) || (isTop(first) && isZero(lastI))
+	return out
+}
